@@ -103,25 +103,28 @@ def tree_hash(repo, flavour):
 
 
 def build(flavour="plain", verbose=False):
-    """Return the PYTHONPATH root (…/stage/lib) of an up-to-date overlay."""
+    """Return the PYTHONPATH root (…/stage/lib) of an up-to-date overlay.
+
+    Overlays are keyed by the content hash of the staged inputs, so a change of the
+    working tree never deletes an overlay that a running check is still using; old
+    overlays are pruned (the newest KEEP per flavour/repository are kept)."""
     repo = repo_root()
     os.makedirs(BUILD_ROOT, exist_ok=True)
     tag = hashlib.sha256(os.path.abspath(repo).encode()).hexdigest()[:8]
-    base = os.path.join(BUILD_ROOT, "%s-%s" % (flavour, tag))
-    os.makedirs(base, exist_ok=True)
-    lock = open(os.path.join(base, ".lock"), "w")
+    want = tree_hash(repo, flavour)
+    prefix = "%s-%s" % (flavour, tag)
+    base = os.path.join(BUILD_ROOT, "%s-%s" % (prefix, want[:16]))
+    stamp = os.path.join(base, "stamp")
+    stage = os.path.join(base, "stage")
+    if os.path.exists(stamp) and open(stamp).read().strip() == want:
+        return os.path.join(stage, "lib")
+    lock = open(os.path.join(BUILD_ROOT, ".lock-" + prefix), "w")
     fcntl.flock(lock, fcntl.LOCK_EX)
     try:
-        want = tree_hash(repo, flavour)
-        stamp = os.path.join(base, "stamp")
-        stage = os.path.join(base, "stage")
-        if os.path.exists(stamp) and open(stamp).read().strip() == want \
-                and os.path.isdir(os.path.join(stage, "lib", "Crypto")):
+        if os.path.exists(stamp) and open(stamp).read().strip() == want:
             return os.path.join(stage, "lib")
         t0 = time.time()
-        if os.path.exists(stamp):
-            os.unlink(stamp)
-        shutil.rmtree(stage, ignore_errors=True)
+        shutil.rmtree(base, ignore_errors=True)
         os.makedirs(stage)
         for rel in _iter_inputs(repo):
             dst = os.path.join(stage, rel)
@@ -152,10 +155,27 @@ def build(flavour="plain", verbose=False):
         if verbose:
             print("[build] %s: %d modules in %.1fs" % (flavour, n_so, time.time() - t0),
                   file=sys.stderr)
+        _prune(prefix, keep=base)
         return os.path.join(stage, "lib")
     finally:
         fcntl.flock(lock, fcntl.LOCK_UN)
         lock.close()
+
+
+KEEP = 3
+
+
+def _prune(prefix, keep):
+    """Remove all but the newest KEEP overlays of this flavour/repository that are older than 30 minutes."""
+    try:
+        dirs = [os.path.join(BUILD_ROOT, d) for d in os.listdir(BUILD_ROOT)
+                if d.startswith(prefix + "-") and os.path.isdir(os.path.join(BUILD_ROOT, d))]
+        dirs.sort(key=os.path.getmtime, reverse=True)
+        for d in dirs[KEEP:]:
+            if d != keep and time.time() - os.path.getmtime(d) > 1800:
+                shutil.rmtree(d, ignore_errors=True)
+    except OSError:
+        pass
 
 
 class BuildError(Exception):
